@@ -610,6 +610,7 @@ def wire_consts(k):
 # ------------------------------------------------------------------------------------------------------------------
 
 FE, FV = "300", "(300*200)"
+SCALE = float(os.environ.get("C05_SCALE", "1"))   # hand-mutation runs use a fraction of the generators
 PRE = "Open Scope string_scope.\n"
 
 
@@ -861,7 +862,7 @@ def run(ctx):
     progs += kind_programs(rng, st, not quick)
     progs += pair_programs(rng, st, not quick)
     # 2. random programs of the fragment
-    n_rand, n_loops, n_expr = (500, 400, 300) if quick else (6000, 5000, 3000)
+    n_rand, n_loops, n_expr = [max(20, int(x * SCALE)) for x in ((500, 400, 300) if quick else (6000, 5000, 3000))]
     structured = []
     for _ in range(n_rand):
         structured.append(g.program(False))
@@ -896,7 +897,7 @@ def run(ctx):
             v.update({"input": src, "actual": impl_canon(rec), "expected": model_canon(val[2:].split("#")[1])})
     ctx.violations[:] = ctx.violations[:5]
     # 3. grouping: decompile the real bytes
-    n_dec = 500 if quick else 6000
+    n_dec = max(50, int((500 if quick else 6000) * SCALE))
     cases = []
     for _ in range(n_dec):
         if rng.random() < 0.5:
@@ -914,7 +915,7 @@ def run(ctx):
             st.shapes.add(("dpair", o1, o2))
     check_decompile(ctx, st, cases, "d")
     # 4. beyond the fragment: the full reference interpreter
-    n_bey = 150 if quick else 2500
+    n_bey = max(20, int((150 if quick else 2500) * SCALE))
     bey = list(BEYOND_FIXED) + [beyond_program(g) for _ in range(n_bey)]
     check_beyond(ctx, st, bey, "b")
     ctx.violations[:] = ctx.violations[:5]
